@@ -76,6 +76,11 @@ CHECKS = {
             "State = per-context set of emitted script names, CSS class ids and once handles (2 of each, 2 contexts, 3 CSS-middleware variants). 29 operations compiled at check time (script component, on* attributes, every class container form the runtime switch knows, once handle with block / fixed component, each also through a wrapper component, inside a child block and repeated) are applied to the real context reached by replaying the shortest history; breadth-first search runs to closure of the finite state space, and every unmerged history up to depth 3/4 over the 14 base operations and 2 contexts is run as well to validate the state key. Every transition's bytes must equal the reference model (fresh-context output minus definitions already in the set); fresh outputs are checked for at-most-once, definition-before-first-use and presence of every use; middleware classes are served by the stylesheet endpoint and never inlined.",
             "Model state key assumes the emitted-id sets are the whole mutable context (contextValue.ss / onceHandles), validated by the unmerged enumeration.",
             "4.12", "bfs"),
+    "C13": ("exploration",
+            "call-tree enumeration -> real generator -> go build -> render, vs reference interpreter with lexical children semantics (and defect-aware dynamic model for attribution)",
+            "Every call node of depth up to 2 over 9 callee kinds (generated components that use, ignore or repeat their slot, a generated wrapper forwarding its children into another call's block, templ.Flush, a once handle, templ.Join, hand-written function components with and without a slot), with and without a block, with marker text and a nested call, alone and followed by probe calls (slot without block, slot with block, repeating slot), every pair (thorough: triple, and every pair of depth-2 nodes) of depth-1 calls; compiled in parallel batches with the current generator and rendered (a crashing render, e.g. stack overflow, is isolated and reported). The reference interpreter says exactly which marker appears inside which component's markup and how often. A mismatch is attributed to a known finding only if a model of templ's shared mutable children register with exactly that component's defect reproduces the observed bytes.",
+            "Lexical semantics as stated by the property; hand-written forwarder follows the documented GetChildren/ClearChildren pattern.",
+            "4.13", "tgen"),
     "C14": ("model_checking",
             "stateless schedule exploration (vsched, preemption-bounded, state caching) of concurrent renders on the real runtime with pools/mutexes shimmed by overlay; separate free-running -race pass of the same bodies",
             "Templates compiled at check time (layout with children, once handle used twice, CSS class, script template in a loop, long text) are rendered by 2-3 goroutines x 1-2 renders into per-goroutine writers that yield on every Write (DefaultBufferSize 32 so renders flush often), one scenario with a writer failing midway and rendering again, and two scenarios in development mode reading the shared text-file cache (text files produced from the generator's literals, old mtimes, cache reset per execution through an overlay-added accessor). runtime/bufferpool.go, runtime/watchmode.go and the root package's pool/mutex files are bound to vsched by import rewriting, sync.Pool.Get reuse-vs-fresh is an explorer choice. Every schedule with at most 3/4 deviations: each goroutine's bytes and error equal the same render executed alone. The same render bodies also run free (8 goroutines x 1500 renders, normal and dev mode) in a -race build without rewritten files; any detector report or mismatch fails the check.",
